@@ -635,7 +635,12 @@ class Interp:
                 self.assign(st.target, self.eval(st.value))
         elif isinstance(st, ast.AugAssign):
             cur = self.eval(_as_load(st.target))
-            v = self.binop(st.op, cur, self.eval(st.value))
+            rhs = self.eval(st.value)
+            if type(cur) is list and isinstance(st.op, ast.Add) and isinstance(rhs, (list, tuple)) and not self.externals.get("__elementwise__"):
+                cur.extend(rhs)  # `lst += other` extends the SAME list object (every other reference to it sees the change)
+                v = cur
+            else:
+                v = self.binop(st.op, cur, rhs)
             self.assign(st.target, v)
         elif isinstance(st, ast.Return):
             raise _Return(self.eval(st.value) if st.value is not None else None)
@@ -1078,6 +1083,15 @@ class Interp:
                         right = list(right.keys())
                     if isinstance(right, set):
                         right = list(right)
+                    if not isinstance(right, (list, tuple, str)) and "__contains__" in self.externals:
+                        try:
+                            ok = bool(self.externals["__contains__"](right, left)) == isinstance(op, ast.In)
+                            if not ok:
+                                return False
+                            left = right
+                            continue
+                        except NotHandled:
+                            pass
                     if not isinstance(right, (list, tuple)):
                         raise Undecided("membership")
                     ok = (left in right) == isinstance(op, ast.In)
@@ -1431,6 +1445,12 @@ class Interp:
                     return self.externals["__call__"](target, self.eval_args(e.args), self.eval_kwargs(e.keywords))
                 except NotHandled:
                     pass
+            if target is None and "." + f.attr in self.externals and self.env.get("self") is not None and not isinstance(self.env.get("self"), (Poly, list, dict, str)):
+                # a method the object inherits from a base outside the package (dict.get on a dict subclass ...)
+                try:
+                    return self.externals["." + f.attr](self.env["self"], self.eval_args(e.args), self.eval_kwargs(e.keywords))
+                except NotHandled:
+                    pass
         # closures and inlined methods
         if isinstance(f, ast.Name) and isinstance(self.env.get(f.id), Closure):
             clo = self.env[f.id]
@@ -1608,17 +1628,21 @@ class Interp:
             raise Undecided("getattr")
         if name == "bool":
             return self.truth(ev(args[0]))
-        if name == "reduce" and len(args) >= 2 and (A.dotted(args[0]) or "") in ("operator.add", "add", "operator.mul", "mul", "operator.or_", "operator.and_"):
+        if name == "reduce" and len(args) >= 2 and (A.dotted(args[0]) or "") in ("operator.add", "add", "operator.mul", "mul", "operator.or_", "operator.and_", "operator.iadd", "iadd"):
             # functools.reduce: with ONE element the element itself is returned (no new object), exactly as in python
             seq = list(self.iterable(ev(args[1]), "reduce"))
             if len(args) > 2:
                 seq = [ev(args[2])] + seq
             if not seq:
                 raise _PyRaise("TypeError")
-            op_ = {"add": ast.Add(), "mul": ast.Mult(), "or_": ast.BitOr(), "and_": ast.BitAnd()}[(A.dotted(args[0]) or "").split(".")[-1]]
+            opname_ = (A.dotted(args[0]) or "").split(".")[-1]
+            op_ = {"add": ast.Add(), "iadd": ast.Add(), "mul": ast.Mult(), "or_": ast.BitOr(), "and_": ast.BitAnd()}[opname_]
             acc = seq[0]
             for x_ in seq[1:]:
-                acc = self.binop(op_, acc, x_)
+                if opname_ == "iadd" and type(acc) is list and isinstance(x_, (list, tuple)):
+                    acc.extend(x_)  # in place, as `acc += x` on a list: the FIRST operand object is the accumulator
+                else:
+                    acc = self.binop(op_, acc, x_)
             return acc
         if name == "round" and isinstance(f, ast.Name) and "round" not in self.env and args:
             v = to_poly(ev(args[0]))
